@@ -229,6 +229,13 @@ class Adapter:
 
 
 def _edge_from(ad, spec, model, U):
+    if spec["mode"] == "recent":
+        # a hyperedge of the immediately preceding insertion (aliasing between the items of
+        # one batch shows only if one of them is edited in place right afterwards)
+        recs = getattr(ad, "recent_recs", None) or []
+        if recs:
+            return recs[spec["pick"] % len(recs)]
+        spec = dict(spec, mode="existing")
     if spec["mode"] == "variant" and model.edges:
         # an existing record changed in the class-specific coordinate
         # (reversed direction / other time / other layer)
@@ -240,7 +247,12 @@ def _edge_from(ad, spec, model, U):
     return ad.fresh_record(spec, U)
 
 
-def _node_from(spec, model, U):
+def _node_from(spec, model, U, ad=None):
+    if spec["mode"] == "recent":
+        ns = [n for n in (getattr(ad, "recent_nodes", None) or []) if n in model.nodes]
+        if ns:
+            return ns[spec["pick"] % len(ns)]
+        spec = dict(spec, mode="existing")
     if spec["mode"] == "existing" and model.nodes:
         ns = sorted(model.nodes)
         return ns[spec["pick"] % len(ns)]
@@ -262,7 +274,7 @@ def resolve(ad, aop, model, U):
     c = {"op": k}
     ad.cur_op = k  # lets an adapter restrict special records (e.g. invalid times) to insertions
     if k == "add_node":
-        c["n"] = _node_from(aop["node"], model, U)
+        c["n"] = _node_from(aop["node"], model, U, ad)
         c["meta"] = aop["meta"]
     elif k == "add_nodes":
         c["ns"] = dedupe([U[i % len(U)] for i in aop["ns"]])
@@ -310,7 +322,7 @@ def resolve(ad, aop, model, U):
                 break
         c["es"] = out
     elif k == "remove_node":
-        c["n"] = _node_from(aop["node"], model, U)
+        c["n"] = _node_from(aop["node"], model, U, ad)
         c["keep"] = aop["keep"] and ad.keep_edges_allowed
         if (c["keep"] and ad.empty_shrink_excluded and c["n"] in model.nodes
                 and model.would_empty([c["n"]])):
@@ -330,7 +342,7 @@ def resolve(ad, aop, model, U):
                 and model.would_empty(out)):
             return None
     elif k in ("set_node_metadata", "set_attr_node", "remove_attr_node"):
-        c["n"] = _node_from(aop["node"], model, U)
+        c["n"] = _node_from(aop["node"], model, U, ad)
         for f in ("meta", "field", "value"):
             if f in aop:
                 c[f] = aop[f]
@@ -591,6 +603,7 @@ def check_history(ad, case, ctx):
 
     trace = [{"init": desc0}]
     ctx.trace = trace
+    ad.recent_recs, ad.recent_nodes = [], []
     frozen = []  # (object, model, obs) of originals left behind by copy()
     cur_obs = check_against_model(ad, h, model, U, probes, "construction")
     if ad.extra_checks(h, model, U, -1, ctx, final=False):
@@ -605,6 +618,17 @@ def check_history(ad, case, ctx):
             continue
         trace.append(c)
         desc = "step %d %r" % (step, c)
+        if c["op"] in ("add_node", "add_nodes", "add_edge", "add_edges"):
+            recs = [c["e"]] if "e" in c else list(c.get("es", []))
+            ns = [c["n"]] if "n" in c else list(c.get("ns", []))
+            for r in recs:
+                for n in sorted(model.nodes_of(ad.key_of(r)), key=repr):
+                    if n not in ns:
+                        ns.append(n)
+            ad.recent_recs, ad.recent_nodes = recs, ns
+        elif c["op"] not in ("set_attr_node", "set_attr_edge", "remove_attr_node",
+                             "remove_attr_edge"):
+            ad.recent_recs, ad.recent_nodes = [], []
         n_probes = len(probes)
         if "e" in c:
             note_probe(c["e"])
@@ -776,6 +800,17 @@ def op_strategy(draw, weighted, kinds, t_strategy=None, clear=True):
         op.update(field=draw(field), value=draw(S.json_values))
     elif k == "set_hg_metadata":
         op.update(meta=draw(S.metadata()))
+    if k in ("add_node", "add_nodes", "add_edge", "add_edges") and draw(st.integers(0, 3)) == 0:
+        # an in-place metadata edit on an item of this very insertion, executed as the next
+        # step (catches dicts shared between the items of one batch)
+        recent_node = {"mode": "recent", "i": draw(idx), "pick": draw(sel)}
+        if k in ("add_edge", "add_edges") and draw(st.booleans()):
+            spec = dict(draw(e_exist), mode="recent")
+            op["follow"] = {"op": "set_attr_edge", "edge": spec, "field": draw(field),
+                            "value": draw(S.json_values)}
+        else:
+            op["follow"] = {"op": "set_attr_node", "node": recent_node, "field": draw(field),
+                            "value": draw(S.json_values)}
     return op
 
 
@@ -798,6 +833,12 @@ def histories(draw, max_steps, kinds=None, t_strategy=None, clear=True,
         if init["node_meta"] is not None:
             init["node_meta"] = [list(t) for t in init["node_meta"]]
     min_steps = draw(st.sampled_from([1, 8, 16]))
-    ops = draw(st.lists(op_strategy(weighted, kinds, t_strategy, clear),
-                        min_size=min_steps, max_size=max_steps))
+    drawn = draw(st.lists(op_strategy(weighted, kinds, t_strategy, clear),
+                          min_size=min_steps, max_size=max_steps))
+    ops = []
+    for op in drawn:
+        follow = op.pop("follow", None)
+        ops.append(op)
+        if follow is not None:
+            ops.append(follow)
     return {"weighted": weighted, "universe": universe, "init": init, "ops": ops}
